@@ -15,7 +15,7 @@ from vlib import NCPU, WORK, build, e2
 
 LEVEL = 'other'
 EXPLANATION = ('Bounded exhaustive exploration, enumerated by z3 and executed natively on real .xlsx files through the real Parser, of dependency graphs '
-               '(3 formula cells on 2 sheets, all 512 edge sets with self loops and cross-sheet edges) x 10 assignments of base formulas (5 rotations, 5 uniform: identical text on both sheets) (same unqualified '
+               '(3 formula cells on 2 sheets, all 512 edge sets with self loops and cross-sheet edges) x 15 assignments of base formulas (5 rotations, 5 uniform: identical text on both sheets, 5 with every edge spelled as a one-cell area inside SUM) (same unqualified '
                'text on two sheets, rectangles with a shared start cell and different extents used repeatedly, whole-column reference). For each '
                'workbook: the whole translation and the entry-point translation from every formula cell. A cycle (reachable from the entry / anywhere) must '
                'give the library\'s parser exception; otherwise the slice must be closed (every referenced member defined), contain every cell the entry '
@@ -52,7 +52,7 @@ def node_uid(i):
     return build.uid(s, a)
 
 
-def _job(rot, timeout, uniform=False):
+def _job(rot, timeout, uniform=False, range_edges=False):
     from excel2pycl import Cell, Parser
     from excel2pycl.src.exceptions import E2PyclParserException
     from openpyxl.utils.cell import coordinate_from_string, column_index_from_string
@@ -78,7 +78,8 @@ def _job(rot, timeout, uniform=False):
         menu = [rot] * 3 if uniform else [(rot + i) % len(MENU) for i in range(3)]       # uniform: the same formula text on both sheets
         sheets = [dict(JAN), dict(FEB)]
         for i, (s, a) in enumerate(NODES):
-            f = '=' + MENU[menu[i]] + ''.join('+' + node_ref(j, s) for j in range(3) if adj[i][j])
+            # an edge is a plain reference, or (range_edges) a one-cell area inside SUM: the dependency then runs through the area translator
+            f = '=' + MENU[menu[i]] + ''.join(('+SUM(' + node_ref(j, s) + ':' + NODES[j][1] + ')' if range_edges else '+' + node_ref(j, s)) for j in range(3) if adj[i][j])
             sheets[s][build.a1({a: 0}).popitem()[0]] = f
         p = build.write_xlsx(os.path.join(d, 'w.xlsx'), [(TITLES[k], sheets[k]) for k in range(2)])
         # oracle: reachability, cycles, values
@@ -166,7 +167,8 @@ def _job(rot, timeout, uniform=False):
 
 def run(report, tier, seed):
     to = 400 if tier == 'quick' else 1500
-    res = e2.run_jobs([(f'graphs_rot{r}', _job, (r, to)) for r in range(len(MENU))] + [(f'graphs_uniform{r}', _job, (r, to, True)) for r in range(len(MENU))], NCPU, deadline=to * 2 + 60)
+    res = e2.run_jobs([(f'graphs_rot{r}', _job, (r, to)) for r in range(len(MENU))] + [(f'graphs_uniform{r}', _job, (r, to, True)) for r in range(len(MENU))]
+                      + [(f'graphs_rangeedges{r}', _job, (r, to, False, True)) for r in range(len(MENU))], NCPU, deadline=to * 2 + 60)
     for name, r in sorted(res.items()):
         cname = 'slice.' + name
         if 'error' in r:
@@ -184,7 +186,7 @@ def run(report, tier, seed):
             report.sample(dict(job=cname, graphs=r['paths'], secs=r['secs']))
     report.encoded('CellTranslator._set_cell_to_context', 'CellTranslator.translate', 'CellTranslator.translate_file', 'Context.get_cell/set_cell/set_sub_cell/build_class',
                    'OperandTokenTranslator.translate', 'MatrixOfCellIdentifiersTokenTranslator.translate', 'Parser._translate (entry point branch)', 'Excel.fill_cell')
-    report.bound('3 formula cells (Jan!E1, Jan!E2, Feb!E1), every subset of the 9 possible edges (self loops, cross-sheet edges), 5 rotations + 5 uniform assignments (identical formula text on both sheets) of the base formulas over 3x3 '
+    report.bound('3 formula cells (Jan!E1, Jan!E2, Feb!E1), every subset of the 9 possible edges (self loops, cross-sheet edges), 5 rotations + 5 uniform assignments (identical formula text on both sheets) + 5 rotations with edges spelled as one-cell areas (SUM(E2:E2)) of the base formulas over 3x3 '
                  'constant blocks on both sheets; whole translation + entry-point translation from each formula cell')
     report.assume('the solver enumerates the finite graph space; every case runs natively on a real .xlsx',
                   'outside the claim: more than 3 formula cells, dependencies through criteria ranges / INDEX / COLUMN, graphs deeper than 3')
